@@ -20,7 +20,7 @@ def run(ck, tier, seed):
     if not ok:
         return
     # (b') feature-value objects come and go between the shaping calls (their addresses are reused): five operations
-    cfg = fl.write_cfg("_c08f_%d.cfg" % os.getpid(), Kinds='{"good"}', OptSet="{0, 7}", Texts="{1}", MaxOps=5,
+    cfg = fl.write_cfg("_c08f_%d.cfg" % os.getpid(), Kinds='{"good", "charisfast"}', OptSet="{0, 7}", Texts="{1}", MaxOps=5,
                        ClientOps='{"featval", "edit_fval", "destroy_fval", "make_seg", "destroy_seg", "shape"}')
     ok, info3 = fl.run_histories(ck, tmp, "feature-object-histories", cfg, "FaceLifeTrace.cfg", exe)
     if not ok:
